@@ -125,16 +125,16 @@ C18Graphs(n, kind) ==
   ELSE IF n = 3 /\ Quick THEN Shapes3
   ELSE Graphs(F, kind, n < 3)
 
-C18One(n, k, gr, g0) ==
+C18One(n, k, gr, g0, gl) ==
   LET files == FilesN(n)  F == Range(files)  filesz == Append(files, "z")  Fz == F \cup {"z"}
       g   == g0 @@ ("z" :> <<>>)
-      R   == Reach("a", g, files, k)
-      pres(ff) == IF gr THEN {"-", "z"} \cup {p \in R \ {"a"} : ff \notin Reach(p, g, files, k)}
+      R   == Reach("a", g, gl, k)
+      pres(ff) == IF gr THEN {"-", "z"} \cup {p \in R \ {"a"} : ff \notin Reach(p, g, gl, k)}
                   ELSE {"-"}
       \* the main model from a file, or from a string without file name (GlobalRepo
       \* providers accept that with imports, ImportURI providers only without)
       hows == {"file"} \cup (IF GlobKind(k) \/ g0["a"] = <<>> THEN {"str"} ELSE {})
-  IN UNION { { Mk(filesz, g, files, 1, k, gr, <<>>, Flt(ph, ff),
+  IN UNION { { Mk(filesz, g, gl, 1, k, gr, <<>>, Flt(ph, ff),
                   (IF p = "-" THEN <<>> ELSE <<Load(p, "file", <<>>)>>)
                     \o <<Load("a", hw, <<>>), RepairOp, Load("a", hw, <<>>)>>
                     \o (IF gr THEN <<Load("a", "file", <<>>)>> ELSE <<>>)
@@ -144,7 +144,8 @@ C18One(n, k, gr, g0) ==
              : ff \in R }
 
 C18N(n) ==
-  UNION { UNION { C18One(n, k, gr, g0) : g0 \in C18Graphs(n, k) } : k \in MCKinds, gr \in MCGrepo }
+  UNION { UNION { C18One(n, k, gr, g0, gl) : g0 \in C18Graphs(n, k), gl \in Globs(FilesN(n), k) }
+          : k \in MCKinds, gr \in MCGrepo }
 
 FamC18(dummy) == C18N(1) \cup C18N(2) \cup C18N(3)
 
